@@ -77,6 +77,9 @@ func checkC11(c c11Case) string {
 	}
 	b := buildList(c.Cues)
 	b.sub.Unfragment()
+	if m := b.metaDiff(); m != "" {
+		return m
+	}
 	got := b.sub.Items
 	ctx := func() string { return fmt.Sprintf("in: %s out: %s", fmtSpecs(c.Cues), fmtItems(got)) }
 	want := specUnfragment(c.Cues)
@@ -226,10 +229,11 @@ func c11NonTrivial(c c11Case) (bool, []string) {
 
 func TestC11(t *testing.T) {
 	runWitnesses(t, "C11")
+	cliCases(t, "C11", "unfragment")
 
 	// "ab" and "a+b" show the same text with a different split into runs
 	texts3 := []string{"a", "b", "a|b"}
-	textsR := []string{"a", "b", "a|b", "ab", "a+b", "a|+b"}
+	textsR := []string{"a", "b", "a|b", "ab", "a+b", "a|+b", "a|", "|a"} // the last two: "a" with an empty line after or before it (another text than "a")
 	// Exhaustive: every list (any order) of <=4 cues on the 0..N grid with 3 texts.
 	grid := func(name string, maxN int, max int64) {
 		sub(t, name, func(t *testing.T) {
